@@ -3,16 +3,56 @@ package main
 import (
 	"encoding/json"
 	"sort"
+	"strconv"
 	"strings"
 
 	"github.com/fabiolb/fabio/route"
 	"verif/harness/hx"
+	"verif/harness/rt"
 )
 
 // c05.line — one line of text against the tokenizer model: the Go side ships what the real regexes / Parse
 // produce for that line (route.VerifParse = Parse on the text), the model runs `parse`.
 type lineIn struct {
-	Line string `json:"line"`
+	Line string `json:"line,omitempty"`
+	// Def != nil: the line is this definition written by the varier seeded with VSeed (white-space variation,
+	// padded tag lists, a repeated option key; one malformation when Mal is set) between PadL and PadR. Run renders
+	// it, so that a shrunk input stays consistent, and — for a well-formed line — ships the definition Parse must
+	// return (`want`): print-then-parse is the identity on the definitions of the command language.
+	Def   *rt.Def `json:"def,omitempty"`
+	VSeed uint64  `json:"vseed,omitempty"`
+	Mal   bool    `json:"mal,omitempty"`
+	PadL  string  `json:"padl,omitempty"`
+	PadR  string  `json:"padr,omitempty"`
+}
+
+// wantDef is the definition a reader of the command language must produce for d, in canonDefs' shape.
+func wantDef(d *rt.Def) lineDef {
+	w := lineDef{Service: d.Service, Tags: append([]string{}, d.Tags...), Opts: [][]string{}, Weight: route.VerifRat(0)}
+	switch d.Cmd {
+	case "add":
+		w.Cmd, w.Src, w.Dst, w.Weight = string(route.RouteAddCmd), d.Src, d.Dst, route.VerifRat(d.Weight())
+		m := map[string]string{}
+		for _, o := range d.Opts {
+			m[o[0]] = o[1]
+		}
+		keys := make([]string, 0, len(m))
+		for k := range m {
+			keys = append(keys, k)
+		}
+		sort.Strings(keys)
+		for _, k := range keys {
+			w.Opts = append(w.Opts, []string{k, m[k]})
+		}
+	case "del":
+		w.Cmd = string(route.RouteDelCmd)
+		if len(d.Tags) == 0 {
+			w.Src, w.Dst = d.Src, d.Dst
+		}
+	case "weight":
+		w.Cmd, w.Src, w.Weight = string(route.RouteWeightCmd), d.Src, route.VerifRat(d.Weight())
+	}
+	return w
 }
 
 type lineDef struct {
@@ -47,8 +87,17 @@ func runLine(raw json.RawMessage) (interface{}, error) {
 	if err := json.Unmarshal(raw, &in); err != nil {
 		return nil, err
 	}
-	defs, err := route.VerifParse(in.Line)
 	out := map[string]interface{}{}
+	if in.Def != nil {
+		v := &varier{r: hx.NewRand(in.VSeed, "line"), level: 1}
+		in.Line = in.PadL + v.line(in.Def, in.Mal) + in.PadR
+		out["line"] = in.Line
+		if _, werr := strconv.ParseFloat(in.Def.WText, 64); !in.Mal && expressible(in.Def) && (in.Def.WText == "" || werr == nil) {
+			e := v.effective(in.Def)
+			out["want"] = wantDef(&e)
+		}
+	}
+	defs, err := route.VerifParse(in.Line)
 	if err != nil {
 		out["error"] = loadErr(err)
 	} else {
@@ -84,11 +133,11 @@ func genLine(r *hx.Rand, i int) interface{} {
 		if r.Chance(1, 20) {
 			d.WText = r.Pick(append(append([]string{}, badWeights...), nonFinite...))
 		}
-		v := &varier{r: r, level: 1}
-		line = v.line(&d, r.Chance(2, 5))
+		in := lineIn{Def: &d, VSeed: r.U64() % 1000000, Mal: r.Chance(2, 5)}
 		if r.Chance(1, 3) {
-			line = r.Pick(uniPad) + line + r.Pick(uniPad)
+			in.PadL, in.PadR = r.Pick(uniPad), r.Pick(uniPad)
 		}
+		return in
 	case 5, 6, 7, 8: // random tokens from the vocabulary
 		n := 1 + r.Intn(9)
 		var b strings.Builder
